@@ -2413,6 +2413,9 @@ class AEval(dtable.Eval):
             return ("str", t.strip())
         if m == "is_ascii" and not args:
             return B(t.isascii())
+        if m in ("trim_ascii", "trim_ascii_start", "trim_ascii_end") and not args:
+            ws = " \t\n\x0c\r"
+            return ("str", t.strip(ws) if m == "trim_ascii" else (t.lstrip(ws) if m == "trim_ascii_start" else t.rstrip(ws)))
         if m == "split_whitespace" and not args:
             return L(*[("str", x) for x in t.split()])
         if m == "split_ascii_whitespace" and not args:
